@@ -66,12 +66,15 @@ def r1_polarity(ctx):
         inner = [x for x in hir.matches(a["body"]) if "UnionMode" in (x.get("sty") or "")]
         ok = False
         detail = {}
+        isrec = lambda c: (hir._callee_key(c) or c.get("key")) == REL
         if inner:
             for arm2 in inner[0]["arms"]:
                 mode = arm2["pat"].get("variant")
-                meths = [mm for mm in hir.method_names(arm2["body"]) if mm in ("all", "any")]
-                detail[mode] = meths
+                detail[mode] = hir.quantifiers(arm2["body"], isrec)
             ok = detail.get("All") == ["all"] and detail.get("Any") == ["any"]
+        if not inner or any("unknown" in v or not v for v in detail.values()):
+            raise CheckError("%s: the union-on-left arm of check_type_relation no longer has a per-mode quantifier shape that can be classified "
+                             "syntactically (%s): cannot decide its polarity" % (R, detail or hir.quantifiers(a["body"], isrec)))
         ctx.check(ok, R, "arm(Union,_)|mode", "All -> Iterator::all, Any -> Iterator::any over the variants", "union-on-left polarity is %s (expected All->all, Any->any)" % detail,
                   "%s:%d" % (file, a["ln"]))
     # union on the right
@@ -81,7 +84,9 @@ def r1_polarity(ctx):
         ctx.violated(R, "arm(_,Union)", "no arm for a union on the right")
     else:
         a = right[0]
-        meths = [mm for mm in hir.method_names(a["body"]) if mm in ("all", "any")]
+        meths = hir.quantifiers(a["body"], lambda c: (hir._callee_key(c) or c.get("key")) == REL)
+        if "unknown" in meths or not meths:
+            raise CheckError("%s: the union-on-right arm of check_type_relation has a quantifier shape that cannot be classified (%s)" % (R, meths))
         ors = [x for x in hir.walk(a["body"]) if x["e"] == "binary" and x["op"] == "Or"]
         helpers = sorted({k for k in hir.call_keys(a["body"]) if k.startswith("quiver_") and k != REL})
         modes = [x for x in hir.matches(a["body"]) if "UnionMode" in (x.get("sty") or "")] + [x for x in hir.walk(a["body"]) if x["e"] == "path" and x.get("name") == "mode" and False]
@@ -97,7 +102,9 @@ def r1_polarity(ctx):
             ctx.violated(R, "arm(%s,%s)" % (va, vb), "no structural arm")
             continue
         a = arms[0]
-        meths = [mm for mm in hir.method_names(a["body"]) if mm in ("all", "any")]
+        meths = hir.quantifiers(a["body"], lambda c: (hir._callee_key(c) or c.get("key")) == REL)
+        if "unknown" in meths or not meths:
+            raise CheckError("%s: the (%s,%s) arm of check_type_relation has a quantifier shape that cannot be classified (%s)" % (R, va, vb, meths))
         # outermost quantifier over the PATTERN's fields must be `all`
         ok = bool(meths) and meths[0] == "all" and sorted(set(meths)) == sorted(set(want)) and bool(rec_calls(a["body"]))
         ors = [x for x in hir.walk(a["body"]) if x["e"] == "binary" and x["op"] == "Or"]
